@@ -226,6 +226,36 @@ def vs_expected(vs, pos):
     raise ValueError((vs["kind"], funct))
 
 
+def _independent_size(tmpl, atype_of, nonbond_params):
+    """sqrt(mean |v - mean v|^2) over v = (p - cog) + unit(p - cog) * sigma(atype); atoms at the centre count as zero
+    vectors; all atoms at the centre -> largest sigma.  None when a sigma is not available."""
+    try:
+        pts = {k: np.asarray(v, dtype=float) for k, v in tmpl.items()}
+        cog = np.mean(list(pts.values()), axis=0)
+        vecs = np.zeros((len(pts), 3))
+        radii = []
+        i = 0
+        for k, p in pts.items():
+            rad = float(nonbond_params[frozenset([atype_of[k]])]["nb1"])
+            d = p - cog
+            nrm = float(np.linalg.norm(d))
+            if nrm < 1e-9 and len(pts) > 1:
+                # an atom (typically a centre-of-geometry virtual site) sits on the centre up to rounding: whether
+                # compute_volume's 1e-18 threshold counted it as "at the centre" cannot be told from the centred
+                # template - not judged
+                return None
+            if nrm > 1e-18:
+                vecs[i] = d + d / nrm * rad
+                i += 1
+            else:
+                radii.append(rad)
+    except (KeyError, TypeError, ValueError):
+        return None
+    if np.any(vecs):
+        return float(np.sqrt(np.mean(np.sum((vecs - vecs.mean(axis=0)) ** 2, axis=1))))
+    return max(radii) if radii else None
+
+
 def check_c15(ctx, job, top):
     spec = job["spec"]
     volumes = top.volumes
@@ -309,6 +339,20 @@ def check_c15(ctx, job, top):
                 if abs(float(volumes[key]) - user_volumes[nd["resname"]]) > 1e-12:
                     ctx.fail("C15", "user.volume", f"size of {nd['resname']} given as {user_volumes[nd['resname']]} "
                                                    f"but {volumes[key]} is used")
+            supplied_names = set(user_volumes) | set(user_templates) | set(job.get("bld_volumes") or {}) | \
+                set(job.get("bld_templates") or {})
+            if not is_user and nd["resname"] not in supplied_names and not job["opts"].get("split") and key in volumes:
+                # a GENERATED size belongs to the residue's own template: the radius of gyration of the template
+                # positions, each pushed outwards by the sigma of its atom type (compute_volume's documented
+                # definition), recomputed here from the captured template - a size taken over from another residue
+                # (e.g. one that merely has the same name) does not satisfy it
+                exp = _independent_size(tmpl, {graph.nodes[a]["atomname"]: graph.nodes[a].get("atype") for a in graph.nodes},
+                                        getattr(top, "nonbond_params", {}))
+                if exp is not None:
+                    ctx.probe("generated_size_recomputed")
+                    if abs(float(volumes[key]) - exp) > 1e-7 * max(1.0, exp):
+                        ctx.fail("C15", "size", f"size of {nd['resname']} (atoms {names}) is {float(volumes[key]):.6f} but its own "
+                                                f"template gives {exp:.6f}: not the size generated for this residue")
             if rt is None or is_user or job["opts"].get("split"):
                 continue
             anames = [a["name"] for a in rt["atoms"]]
